@@ -489,7 +489,6 @@ class Syntax(JupyterMixin):
         code = textwrap.dedent(self.code) if self.dedent else self.code
         code = code.expandtabs(self.tab_size)
         text = self.highlight(code, self.line_range)
-        text.remove_suffix("\n")
 
         (
             background_style,
@@ -499,6 +498,7 @@ class Syntax(JupyterMixin):
 
         if not self.line_numbers:
             # Simple case of just rendering text
+            text.remove_suffix("\n")
             yield from console.render(text, options=options.update(width=code_width))
             return
 
@@ -513,10 +513,9 @@ class Syntax(JupyterMixin):
                 + Style(dim=True)
             )
             lines = (
-                Text("\n")
-                .join(lines)
+                (Text("\n").join(lines) + "\n")
                 .with_indent_guides(self.tab_size, style=style)
-                .split("\n")
+                .split("\n", allow_blank=True)
             )
 
         numbers_column_width = self._numbers_column_width
